@@ -364,6 +364,15 @@ def main():
         r = run_macro_case(src, text, exp, mwd, 999, args); mevals += 1
         if r is not None:
             violations.append(dict(kind='macro-table-cmdline', args=args, what=r))
+    # ... also when the name is one of the compiler's PREDEFINED macros: the command line comes after the predefinitions
+    text2 = ''.join('#ifdef %s\nPROBE "%s" = %s\n#else\nPROBE "%s" undefined\n#endif\n' % (n, n, n, n) for n in ['linux', 'unix', '__STDC_VERSION__', '__x86_64__', '__amd64', '__CHAR_BIT__'])
+    for args, exp in [(['-Ulinux', '-Dunix=2', '-Uunix', '-Dunix=3', '-D__STDC_VERSION__=199901L', '-U__x86_64__', '-U', '__amd64', '-D__CHAR_BIT__=9'],
+                       ['PROBE "linux" undefined', 'PROBE "unix" = 3', 'PROBE "__STDC_VERSION__" = 199901L', 'PROBE "__x86_64__" undefined', 'PROBE "__amd64" undefined', 'PROBE "__CHAR_BIT__" = 9']),
+                      (['-Dlinux=tux', '-Ulinux', '-Dlinux', '-Uunix', '-Dunix=u', '-U__STDC_VERSION__'],
+                       ['PROBE "linux" = 1', 'PROBE "unix" = u', 'PROBE "__STDC_VERSION__" undefined', 'PROBE "__x86_64__" = 1', 'PROBE "__amd64" = 1', 'PROBE "__CHAR_BIT__" undefined'])]:
+        r = run_macro_case(src, text2, exp, mwd, 998, args); mevals += 1
+        if r is not None:
+            violations.append(dict(kind='macro-table-cmdline', args=args, what=r, note='-D / -U of predefined macro names'))
 
     cov = dict(
         obligations=len(THEOREMS), discharged=len(THEOREMS) if built else 0, print_assumptions_closed=closed, axioms=cq['axioms'],
